@@ -19,6 +19,9 @@ Definition reconcile_every_subscribed : bool := true.
 (* updateTaskStatus: is the refresh of the agent id / executor id of the roster task done only when
    the status carries the field (a reconciliation answer need not)? *)
 Definition status_refresh_guarded : bool := true.
+(* KillTasks(ids): does a roster write of KillTasks itself involve roster tasks that are not in its
+   kill list? *)
+Definition killtasks_removes_unlisted : bool := false.
 (* doKillTasks (KillTasks, Cleanup): do the tasks of the set that are not ACTIVE get a KILL call too? *)
 Definition kill_inactive : bool := true.
 (* the states in which Mesos considers a task alive (mesos.proto: non-terminal, reachable) *)
